@@ -39,19 +39,19 @@ func heurNearEps(x, scale float64) bool {
 func heurShapeWeights(r *Rng, w J) {
 	switch k := r.Intn(100); {
 	case k < 20: // all equal: every comparison with as many wins on both sides is a draw
-		for c := range w {
+		for _, c := range sortedJKeys(w) {
 			w[c] = 1.0
 		}
 	case k < 40: // two levels
-		for c := range w {
+		for _, c := range sortedJKeys(w) {
 			w[c] = float64(1 + r.Intn(2))
 		}
 	case k < 60: // equal up to less than eps: score draws with unequal sums (|s1-s2| < 1e-6, != 0)
-		for c := range w {
+		for _, c := range sortedJKeys(w) {
 			w[c] = 1 + float64(r.Intn(5)-2)*2e-7
 		}
 	case k < 65: // a zero / negative weight
-		for c := range w {
+		for _, c := range sortedJKeys(w) {
 			if r.chance(0.4) {
 				w[c] = float64(r.Intn(3) - 1)
 			}
@@ -197,7 +197,7 @@ func heurCoarsen(r *Rng, q *Req, levels int) {
 	known := q.Body["knownAlternatives"].([]interface{})
 	for _, a := range known {
 		vals := a.(J)["criteria"].(J)
-		for k := range vals {
+		for _, k := range sortedJKeys(vals) {
 			vals[k] = float64(r.Intn(levels))
 		}
 	}
